@@ -274,6 +274,13 @@ impl Iterator for Lexer {
     fn next(&mut self) -> Option<Self::Item> {
         self.skip_ws();
 
+        // A lone '.' is skipped; do so in a loop, as a long run of them would
+        // otherwise recurse once per dot.
+        while self.current() == Some('.') && !self.peek(1).is_some_and(Self::is_symbol_char) {
+            self.consume_char();
+            self.skip_ws();
+        }
+
         // TODO(rajan): ensure that we are consistent with whether the tokens are included or not in the Token representation
         // TODO(rajan): should we introduce a new token type for the comment hash (#) and directive hash (.)?
 
